@@ -12,6 +12,20 @@ package postgres
 // server (c18Core), the operation catalogue, the oracle and the check loops.
 //
 // One case = (operation, arguments, result script, fault position k, fault kind).
+// Fault kinds (c18KindApplies, c18WireErr): err (generic statement error), dup (unique violation
+// on an INSERT), drop (connection lost), stall, and the error numbers adapters are tempted to
+// special-case, with the server-side semantics that go with them:
+//   MySQL       deadlock  1213/40001: InnoDB has ROLLED BACK THE WHOLE TRANSACTION of the victim.
+//                         The bracket ends there ("server-rollback"); every later statement on that
+//                         connection runs in autocommit mode (a write is committed on its own) and a
+//                         later COMMIT / ROLLBACK is a no-op.
+//               lockwait  1205/HY000: only the statement is rolled back, the transaction stays open.
+//   PostgreSQL  deadlock 40P01, fk 23503, cancel 57014: like every error inside a transaction
+//                         block they put it into the aborted state (25P02 for everything except
+//                         ROLLBACK / ROLLBACK TO SAVEPOINT <existing name>; COMMIT answers ROLLBACK).
+// Savepoints are tracked by name on both servers: ROLLBACK TO / RELEASE of a name that was not
+// established (e.g. because the SAVEPOINT statement itself failed) is an error (3B001 / 1305) and
+// does not revive an aborted PostgreSQL transaction.
 // A fresh fake server + a fresh adapter instance are used for every run; a run is
 // a pure function of the case. The oracle only looks at what the property names
 // as observation points: the sequence of BEGIN / statement / COMMIT / ROLLBACK the
@@ -90,7 +104,7 @@ type c18Case struct {
 	A     c18Args   `json:"a"`
 	S     c18Script `json:"s"`
 	K     int       `json:"k"`               // 0 = no fault
-	Kind  string    `json:"kind,omitempty"`  // err | dup | drop
+	Kind  string    `json:"kind,omitempty"`  // err | dup | drop | stall | deadlock | lockwait (MySQL) | fk, cancel (PostgreSQL)
 	Trace []string  `json:"trace,omitempty"` // display only, never hashed, ignored on replay
 }
 
@@ -102,10 +116,12 @@ type c18Ev struct {
 	Conn  int
 	Pos   int // fault position (0: not counted)
 	Cls   string
-	Res   string // ok | err | dup | drop | aborted | rolledback | closed
+	Res   string // ok | err | dup | drop | deadlock | lockwait | fk | cancel | aborted | rolledback | nosavepoint | notintx | closed
 	InTx  bool   // the connection had an open transaction when the statement arrived
 	Ins   bool   // INSERT (directly or through EXECUTE)
 	Fault bool
+	Stall bool // the fault is a late answer (the statement itself is executed as scripted)
+	SrvRb bool // answering this statement the server rolled back and ENDED the transaction (MySQL deadlock victim)
 	Text  string
 }
 
@@ -122,8 +138,11 @@ func (e c18Ev) String() string {
 	if e.Fault {
 		f = " <== FAULT"
 	}
-	if e.Fault && e.Res != "err" && e.Res != "dup" && e.Res != "drop" {
+	if e.Fault && e.Stall {
 		f = " <== STALLED beyond the deadline"
+	}
+	if e.SrvRb {
+		f += " (the server has rolled back the whole transaction: the connection is in autocommit mode from here on)"
 	}
 	return fmt.Sprintf("c%d %s #%d %s -> %s%s", e.Conn, tx, e.Pos, s, e.Res, f)
 }
@@ -134,7 +153,7 @@ type c18Col struct {
 }
 
 type c18Reply struct {
-	Res  string // ok | err | dup | drop | aborted | rolledback | rows
+	Res  string // ok | rows | rolledback | drop | any key of c18WireErr (err, dup, deadlock, lockwait, fk, cancel, aborted, nosavepoint, notintx)
 	Cls  string
 	Verb string
 	Aff  int
@@ -150,6 +169,91 @@ type c18ConnSt struct {
 	id     int
 	tx     byte
 	closed bool
+	sps    []string // names of the savepoints established in the open transaction, oldest first
+}
+
+// c18WireErr is the error a real server sends for a failed statement: MySQL error number +
+// SQLSTATE, PostgreSQL SQLSTATE (Code 0). The wire layers answer every reply whose Res is not
+// ok / rows / rolledback / drop through this table.
+type c18ErrInfo struct {
+	Code  int
+	State string
+	Msg   string
+}
+
+func c18WireErr(pg bool, res string) c18ErrInfo {
+	if pg {
+		switch res {
+		case "dup":
+			return c18ErrInfo{0, "23505", "duplicate key value violates unique constraint \"x\""}
+		case "deadlock":
+			return c18ErrInfo{0, "40P01", "deadlock detected"}
+		case "fk":
+			return c18ErrInfo{0, "23503", "insert or update on table \"t\" violates foreign key constraint \"x\""}
+		case "cancel":
+			return c18ErrInfo{0, "57014", "canceling statement due to statement timeout"}
+		case "aborted":
+			return c18ErrInfo{0, "25P02", "current transaction is aborted, commands ignored until end of transaction block"}
+		case "nosavepoint":
+			return c18ErrInfo{0, "3B001", "savepoint does not exist"}
+		case "notintx":
+			return c18ErrInfo{0, "25P01", "SAVEPOINT can only be used in transaction blocks"}
+		}
+		return c18ErrInfo{0, "XX000", "injected failure"}
+	}
+	switch res {
+	case "dup":
+		return c18ErrInfo{1062, "23000", "Duplicate entry 'x' for key 'PRIMARY'"}
+	case "deadlock":
+		return c18ErrInfo{1213, "40001", "Deadlock found when trying to get lock; try restarting transaction"}
+	case "lockwait":
+		return c18ErrInfo{1205, "HY000", "Lock wait timeout exceeded; try restarting transaction"}
+	case "nosavepoint":
+		return c18ErrInfo{1305, "42000", "SAVEPOINT does not exist"}
+	}
+	return c18ErrInfo{1105, "HY000", "injected failure"}
+}
+
+// c18AllKinds: every fault kind of the enumeration, in enumeration order (stall is separate).
+var c18AllKinds = []string{"err", "dup", "drop", "deadlock", "lockwait", "fk", "cancel"}
+
+// c18KindApplies: can statement e (an event of the fault-free trace) fail in this way on this
+// DBMS? Lock conflicts and constraint violations only hit data-modifying statements; a statement
+// timeout / cancel request hits whatever statement is running.
+func c18KindApplies(kind string, e c18Ev) bool {
+	switch kind {
+	case "err", "drop", "stall":
+		return true
+	case "dup":
+		return e.Ins
+	case "deadlock":
+		return e.Cls == "write"
+	case "lockwait":
+		return c18AdapterName == "mysql" && e.Cls == "write"
+	case "fk":
+		return c18AdapterName == "postgres" && e.Cls == "write"
+	case "cancel":
+		return c18AdapterName == "postgres" && (e.Cls == "write" || e.Cls == "read")
+	}
+	return false
+}
+
+// c18SpName: the savepoint name of SAVEPOINT x / RELEASE [SAVEPOINT] x / ROLLBACK [WORK] TO [SAVEPOINT] x.
+func c18SpName(sql string) string {
+	f := strings.Fields(strings.TrimRight(strings.TrimSpace(sql), ";"))
+	if len(f) == 0 {
+		return ""
+	}
+	return strings.ToLower(f[len(f)-1])
+}
+
+func c18SpFind(sps []string, name string) int {
+	for i := len(sps) - 1; i >= 0; i-- {
+		if sps[i] == name {
+			return i
+		}
+	}
+	return -1
 }
 
 type c18Core struct {
@@ -212,6 +316,7 @@ func (s *c18Core) closeLocked(c *c18ConnSt) {
 		return
 	}
 	c.closed = true
+	c.sps = nil
 	if s.armed {
 		s.evs = append(s.evs, c18Ev{Conn: c.id, Cls: "close", Res: "closed", InTx: c.tx != 'I', Text: "(connection closed)"})
 	}
@@ -309,7 +414,7 @@ func (s *c18Core) stmt(c *c18ConnSt, sql string, mode int) c18Reply {
 	fault := ev.Pos != 0 && ev.Pos == s.fk
 	if fault && s.fkind == "stall" {
 		// the statement is executed as scripted, only its answer comes after the deadline
-		ev.Fault, rep.Stall, fault = true, true, false
+		ev.Fault, ev.Stall, rep.Stall, fault = true, true, true, false
 		s.stalls++
 	}
 	switch {
@@ -323,12 +428,17 @@ func (s *c18Core) stmt(c *c18ConnSt, sql string, mode int) c18Reply {
 			s.closeLocked(c)
 			rep.Tx = 'I'
 			return rep
-		default: // err, dup
+		default: // err, dup, deadlock, lockwait, fk, cancel
 			if cls == "commit" {
 				// a COMMIT that fails ends the transaction without making it durable
-				c.tx = 'I'
+				c.tx, c.sps = 'I', nil
 			} else if s.pg && c.tx == 'T' {
 				c.tx = 'E'
+			} else if !s.pg && s.fkind == "deadlock" && c.tx != 'I' {
+				// InnoDB rolls back the whole transaction of a deadlock victim: the transaction is
+				// over at the server, the session is back in autocommit mode
+				c.tx, c.sps = 'I', nil
+				ev.SrvRb = true
 			}
 		}
 	case s.pg && c.tx == 'E' && cls != "rollback" && cls != "rollbackto" && cls != "commit":
@@ -336,17 +446,40 @@ func (s *c18Core) stmt(c *c18ConnSt, sql string, mode int) c18Reply {
 	default:
 		switch cls {
 		case "begin":
-			c.tx = 'T'
+			c.tx, c.sps = 'T', nil
 		case "commit":
 			if s.pg && c.tx == 'E' {
 				rep.Res = "rolledback"
 			}
-			c.tx = 'I'
+			c.tx, c.sps = 'I', nil
 		case "rollback":
-			c.tx = 'I'
-		case "rollbackto":
-			if c.tx == 'E' {
-				c.tx = 'T'
+			c.tx, c.sps = 'I', nil
+		case "savepoint":
+			switch {
+			case c.tx != 'I':
+				c.sps = append(c.sps, c18SpName(sql))
+			case s.pg:
+				rep.Res = "notintx"
+			}
+			// MySQL outside a transaction: accepted, but the savepoint is gone with the (autocommitted) statement
+		case "rollbackto", "release":
+			i := c18SpFind(c.sps, c18SpName(sql))
+			switch {
+			case s.pg && c.tx == 'I':
+				rep.Res = "notintx"
+			case i < 0:
+				// the name was never established (or the transaction it belonged to is over)
+				rep.Res = "nosavepoint"
+				if s.pg && c.tx == 'T' {
+					c.tx = 'E'
+				}
+			case cls == "rollbackto":
+				c.sps = c.sps[:i+1] // the savepoint itself survives
+				if c.tx == 'E' {
+					c.tx = 'T'
+				}
+			default:
+				c.sps = c.sps[:i]
 			}
 		case "read":
 			s.nSel++
@@ -498,18 +631,26 @@ func c18Run(c *c18Case, k int, kind string) c18RunRes {
 
 // ------------------------------------------------------------------ oracle
 
+type c18Sp struct {
+	name string
+	idx  int
+}
+
 type c18Tx struct {
 	conn     int
-	end      string // "" (still open) | commit | rollback | commit-failed | commit-rolledback | connclosed
+	end      string // "" (still open) | commit | rollback | commit-failed | commit-rolledback | connclosed | server-rollback
 	okWrites int
-	bad      []int // indices of failed statements that were not undone by ROLLBACK TO SAVEPOINT
-	sp       int   // index of the latest SAVEPOINT
+	bad      []int   // indices of failed statements that were not undone by ROLLBACK TO SAVEPOINT
+	undone   []int   // indices of failed statements whose effects (none) were undone by a later ROLLBACK TO SAVEPOINT
+	sps      []c18Sp // established savepoints, oldest first
 }
 
 type c18View struct {
-	txs     []*c18Tx
-	outside []int // data-modifying statements received outside any transaction
-	failed  []int // every failed statement (inside or outside a transaction)
+	txs        []*c18Tx
+	outside    []int // data-modifying statements received outside any transaction
+	failed     []int // every failed statement (inside or outside a transaction)
+	autocommit []int // successful data-modifying statements received after the server had rolled back the
+	// connection's transaction (MySQL deadlock victim) and before any new BEGIN: each one is committed on its own
 }
 
 func c18Brackets(evs []c18Ev) []*c18Tx { return c18Walk(evs).txs }
@@ -517,18 +658,43 @@ func c18Brackets(evs []c18Ev) []*c18Tx { return c18Walk(evs).txs }
 func c18Walk(evs []c18Ev) c18View {
 	var v c18View
 	open := map[int]*c18Tx{}
+	srvRb := map[int]bool{} // connection -> its transaction was ended by a server-side rollback, no BEGIN since
 	for i, e := range evs {
 		tx := open[e.Conn]
 		okRes := e.Res == "ok" || strings.HasPrefix(e.Res, "ok ") || strings.HasPrefix(e.Res, "rows")
 		if !okRes && e.Cls != "close" && e.Res != "rolledback" {
 			v.failed = append(v.failed, i)
 		}
+		if e.SrvRb {
+			// the failed statement took the whole transaction with it; nothing the client sends
+			// afterwards (COMMIT and ROLLBACK included) belongs to a transaction any more
+			if tx != nil {
+				tx.bad = append(tx.bad, i)
+				tx.end = "server-rollback"
+				delete(open, e.Conn)
+			}
+			srvRb[e.Conn] = true
+			continue
+		}
+		spIdx := func() int {
+			if tx == nil {
+				return -1
+			}
+			name := c18SpName(e.Text)
+			for j := len(tx.sps) - 1; j >= 0; j-- {
+				if tx.sps[j].name == name {
+					return j
+				}
+			}
+			return -1
+		}
 		switch e.Cls {
 		case "begin":
 			if okRes && tx == nil {
-				ntx := &c18Tx{conn: e.Conn, sp: -1}
+				ntx := &c18Tx{conn: e.Conn}
 				open[e.Conn] = ntx
 				v.txs = append(v.txs, ntx)
+				delete(srvRb, e.Conn)
 			}
 		case "commit":
 			if tx != nil {
@@ -556,25 +722,40 @@ func c18Walk(evs []c18Ev) c18View {
 			}
 		case "savepoint":
 			if tx != nil && okRes {
-				tx.sp = i
+				tx.sps = append(tx.sps, c18Sp{c18SpName(e.Text), i})
 			} else if tx != nil {
 				tx.bad = append(tx.bad, i)
 			}
 		case "rollbackto":
-			if tx != nil && okRes {
+			if j := spIdx(); tx != nil && okRes && j >= 0 {
+				// everything after the savepoint is undone, the failures included: they no longer
+				// stand in the way of a COMMIT as far as the DBMS is concerned (c18Judge still asks
+				// whether the adapter was entitled to carry on after them)
 				keep := tx.bad[:0]
 				for _, b := range tx.bad {
-					if b < tx.sp {
+					if b < tx.sps[j].idx {
 						keep = append(keep, b)
+					} else {
+						tx.undone = append(tx.undone, b)
 					}
 				}
 				tx.bad = keep
+				tx.sps = tx.sps[:j+1]
 			} else if tx != nil {
+				tx.bad = append(tx.bad, i)
+			}
+		case "release":
+			if j := spIdx(); tx != nil && okRes && j >= 0 {
+				tx.sps = tx.sps[:j]
+			} else if tx != nil && !okRes {
 				tx.bad = append(tx.bad, i)
 			}
 		case "write":
 			if tx == nil {
 				v.outside = append(v.outside, i)
+				if okRes && srvRb[e.Conn] {
+					v.autocommit = append(v.autocommit, i)
+				}
 			} else if okRes {
 				tx.okWrites++
 			} else {
@@ -589,7 +770,9 @@ func c18Walk(evs []c18Ev) c18View {
 	return v
 }
 
-// c18Tolerated: failures the adapter code explicitly handles and continues after.
+// c18Tolerated: failures the adapter code explicitly handles and continues after. Only a real
+// unique violation (Res "dup": MySQL 1062, PostgreSQL 23505) qualifies, never another failure of
+// the same statement (generic error, deadlock, lock wait timeout, foreign key, cancel, 25P02):
 //   - duplicate key on INSERT INTO subscriptions: createSubscription turns it into an UPDATE
 //     (re-subscription / undelete);
 //   - duplicate key on INSERT INTO usertags in UserUpdateTags without reset: addTags(ignoreDups=true).
@@ -640,6 +823,11 @@ func c18Judge(c *c18Case, k int, kind string, r c18RunRes) *kit.Viol {
 			return mk("open-tx", fmt.Sprintf("the transaction on connection %d is still open after the call returned (no COMMIT, no ROLLBACK, connection alive)", tx.conn))
 		}
 	}
+	// (2) after the server has rolled back the transaction (MySQL deadlock victim) nothing of the
+	// operation may be executed any more: a write sent then is committed on its own
+	if len(v.autocommit) > 0 {
+		return mk("autocommit-after-server-rollback", fmt.Sprintf("the server had rolled back the whole transaction (deadlock victim), the statement sent afterwards ran in autocommit mode and is committed on its own: %s", r.Evs[v.autocommit[0]]))
+	}
 	if op.Multi {
 		// (1) every data-modifying statement inside one bracket on one connection
 		if len(v.outside) > 0 {
@@ -667,6 +855,14 @@ func c18Judge(c *c18Case, k int, kind string, r c18RunRes) *kit.Viol {
 				return mk("commit-after-failure", fmt.Sprintf("statement failed (%s) and the transaction was committed nevertheless", r.Evs[b]))
 			}
 		}
+		// ... and going back to a savepoint does not make a failure acceptable: what the failed
+		// statement was to write is missing from the committed transaction. Only the documented
+		// "duplicate key, do an UPDATE instead" continuation is entitled to that.
+		for _, b := range tx.undone {
+			if !c18Tolerated(c, r.Evs[b]) {
+				return mk("commit-after-undone-failure", fmt.Sprintf("statement failed (%s), the transaction was revived with ROLLBACK TO SAVEPOINT and committed without it", r.Evs[b]))
+			}
+		}
 	}
 	if r.Panic != "" {
 		return nil // judged on the trace only; reported through the panic class
@@ -680,6 +876,11 @@ func c18Judge(c *c18Case, k int, kind string, r c18RunRes) *kit.Viol {
 					what = "swallowed-error"
 				}
 				return mk(what, fmt.Sprintf("the call returned nil but %d transactions were committed", commits))
+			}
+			for _, f := range v.failed {
+				if !c18Tolerated(c, r.Evs[f]) {
+					return mk("swallowed-error", fmt.Sprintf("statement failed (%s) but the call returned nil", r.Evs[f]))
+				}
 			}
 		} else {
 			for _, f := range v.failed {
@@ -783,7 +984,7 @@ func c18Exec(c *c18Case) (kit.Outcome, []string) {
 		}
 		return o, c18TraceStrings(dry.Evs)
 	}
-	if c.K < 0 || c.K > len(pos) || (c.Kind != "err" && c.Kind != "dup" && c.Kind != "drop" && c.Kind != "stall") || (c.Kind == "dup" && !pos[c.K-1].Ins) {
+	if c.K < 0 || c.K > len(pos) || !c18KindApplies(c.Kind, pos[c.K-1]) {
 		o.Skip = true
 		return o, nil
 	}
@@ -1291,9 +1492,15 @@ func c18GenCase(rt *rapid.T) *c18Case {
 	if c.K == 0 {
 		return c
 	}
-	kinds := []string{"err", "err", "drop"}
-	if pos[c.K-1].Ins {
-		kinds = append(kinds, "dup", "dup")
+	// err and dup twice as likely as each of the others that apply to the statement
+	var kinds []string
+	for _, kind := range c18AllKinds {
+		if c18KindApplies(kind, pos[c.K-1]) {
+			kinds = append(kinds, kind)
+			if kind == "err" || kind == "dup" {
+				kinds = append(kinds, kind)
+			}
+		}
 	}
 	c.Kind = kinds[c18Pick(rt, "kind", len(kinds))]
 	return c
@@ -1484,8 +1691,8 @@ func c18EnumUnit(tt *testing.T, unit string) {
 				b0 := base
 				cases = append(cases, &b0)
 				for k := 1; k <= len(pos); k++ {
-					for _, kind := range []string{"err", "dup", "drop"} {
-						if kind == "dup" && !pos[k-1].Ins {
+					for _, kind := range c18AllKinds {
+						if !c18KindApplies(kind, pos[k-1]) {
 							continue
 						}
 						cc := base
